@@ -1,0 +1,7 @@
+//go:build !verif
+
+package reader
+
+import "github.com/zilliztech/milvus-cdc/core/api"
+
+func verifYield(point string, targetPChannel string, src *api.ReplicateMsg, out *api.ReplicateMsg) {}
